@@ -57,6 +57,9 @@ def integration_and_binning(ctx, lentil, rng):
         if rng.random() < 0.5:
             w = [w[0] - 2] + w + [w[-1] + 2]
         v = [Fr(rng.randint(0, 12), 4) for _ in w]
+        if rng.random() < 0.15:
+            # a pass band elsewhere: the spectrum is zero over the whole span of the bins (signal only in the outer samples, if any)
+            v = [Fr(0) if edges[0] <= x <= edges[-1] else Fr(3) for x in w]
         cases.append({'k': 'bin', 's': sp.spec_json('nm', None, w, v), 'c': [sp.rj(c) for c in centres], 'ends': ends, 'fill': [0, 1],
                       'linear_in_bins': ends == 'symmetric', 'odd_spacing': d % 2 == 1})
     for i, c in enumerate(cases):
@@ -71,15 +74,32 @@ def integration_and_binning(ctx, lentil, rng):
             obs = s.integrate(lo, hi, method='trapz')
             ev = float(sp.rf(e['val']))
             ctx.case(('trapz', str(c['s']['w']), lo, hi))
-            if abs(obs - ev) > 1e-10 * (1 + abs(ev)):
-                ctx.violation({'kind': 'integrate-trapz'}, {'spectrum': c['s'], 'lo': lo, 'hi': hi, 'expected': ev, 'observed': float(obs)},
+            ex_ = float(sp.rf(e['exact']))          # = ev when both bounds are samples; between samples either reading is accepted
+            if abs(obs - ev) > 1e-10 * (1 + abs(ev)) and abs(obs - ex_) > 1e-10 * (1 + abs(ex_)):
+                ctx.violation({'kind': 'integrate-trapz'}, {'spectrum': c['s'], 'lo': lo, 'hi': hi, 'expected': ev, 'or_with_partial_intervals': ex_, 'observed': float(obs)},
                               case={'case': c})
+            # values stored as small unsigned integers or booleans are the same values: 64 x (non-negative quarter-integers) fits uint8
+            vq = [sp.rf(x) for x in c['s']['v']]
+            if all(x >= 0 for x in vq):
+                for dt, scale_ in ((np.uint8, 64), (np.int16, 64), (bool, None)):
+                    vals = np.array([float(x) for x in vq])
+                    arr = (vals > 0) if dt is bool else np.round(vals * scale_).astype(dt)
+                    si = lentil.radiometry.Spectrum(np.asarray(s.wave, dtype=float), arr, waveunit='nm', valueunit=None)
+                    sf = lentil.radiometry.Spectrum(np.asarray(s.wave, dtype=float), arr.astype(float), waveunit='nm', valueunit=None)
+                    for m in ('trapz', 'simps'):
+                        try:
+                            a_, b_ = si.integrate(lo, hi, method=m), sf.integrate(lo, hi, method=m)
+                        except Exception:
+                            continue                      # (Simpson on fewer than three samples etc.: refused for both)
+                        if abs(a_ - b_) > 1e-9 * (1 + abs(b_)):
+                            ctx.violation({'kind': 'integrate-depends-on-value-dtype', 'method': m, 'dtype': np.dtype(dt).kind},
+                                          {'spectrum': c['s'], 'values': arr.tolist(), 'as_float': float(b_), 'observed': float(a_)}, case={'case': c})
             # the same spectrum written in another wavelength unit (numbers of the order 1e-7 in metres): same integral, rescaled
             for u in ('m', 'um', 'angstrom'):
                 fu = 10.0 ** (-9 - sp.EXP[u])
                 su = lentil.radiometry.Spectrum(np.asarray(s.wave, dtype=float) * fu, np.array(s.value, dtype=float), waveunit=u, valueunit=None)
                 ou = su.integrate(lo * fu, hi * fu, method='trapz')
-                if abs(ou - ev * fu) > 1e-9 * fu * (1 + abs(ev)):
+                if abs(ou - ev * fu) > 1e-9 * fu * (1 + abs(ev)) and abs(ou - ex_ * fu) > 1e-9 * fu * (1 + abs(ex_)):
                     ctx.violation({'kind': 'integrate-trapz', 'waveunit': u}, {'spectrum': c['s'], 'lo': lo * fu, 'hi': hi * fu, 'expected': ev * fu, 'observed': float(ou)},
                                   case={'case': c})
                     break
@@ -106,14 +126,14 @@ def integration_and_binning(ctx, lentil, rng):
                 if len(b) != len(centres):
                     ctx.violation(dict(sig, kind='bin-count'), {'n': len(b)}, case={'case': c})
                     continue
-                if np.any(b < -1e-12):
+                if not np.all(np.isfinite(b)) or np.any(b < -1e-12):
                     ctx.violation(dict(sig, kind='bin-negative'), {'bins': b}, case={'case': c})
                 if c['linear_in_bins'] and not np.allclose(b, ebins, rtol=1e-10, atol=1e-12):
                     ctx.violation(dict(sig, kind='bin-value'), {'spectrum': c['s'], 'centres': centres, 'expected': ebins, 'observed': b},
                                   case={'case': c})
                 bp = s.bin(centres, interp_method=m, ends=c['ends'], preserve_power=True, waveunit='nm')
                 span = s.integrate(min(centres), max(centres), method=m)
-                if abs(bp.sum() - span) > 1e-9 * (1 + abs(span)) or np.any(bp < -1e-12):
+                if not np.all(np.isfinite(bp)) or abs(bp.sum() - span) > 1e-9 * (1 + abs(span)) or np.any(bp < -1e-12):
                     ctx.violation(dict(sig, kind='bin-preserve-power'), {'sum': float(bp.sum()), 'integral_over_span': float(span)}, case={'case': c})
                 d_ = centres[1] - centres[0]
                 e_lo, e_hi = (centres[0] - d_ / 2, centres[-1] + d_ / 2) if c['ends'] == 'symmetric' else (centres[0], centres[-1])
